@@ -179,6 +179,9 @@ fn c24_vm_global_log_bit() {
     assert!(disjoint(&log, &GLOBALS[g]), "C24.vm_global.disjoint_from_core_global_specs");
     lay::set_vm_side_metadata_specs(&[log]);
     assert!(log.upper_bound_offset() <= lay::total_side_metadata_bytes(), "C24.vm_global.inside_reserved_range");
+    // a binding that declares ONLY the global log bit on the side: the core specs must still lie inside the reserved range
+    assert!(sd::LAST_LOCAL_SIDE_METADATA_SPEC.upper_bound_offset() <= lay::total_side_metadata_bytes(), "C24.core.inside_reserved_range");
+    assert!(sd::LAST_GLOBAL_SIDE_METADATA_SPEC.upper_bound_offset() <= lay::total_side_metadata_bytes(), "C24.core.inside_reserved_range");
     // cross-kind: on 64-bit the side log bit starts where the core local table starts, so it shares addresses with
     // the first local tables. It must not share addresses with any table of a policy that a log-bit plan (GenCopy,
     // GenImmix, StickyImmix, ConcurrentImmix) can instantiate: ImmixSpace (IX_*) and the native mark-sweep space
